@@ -71,6 +71,8 @@ class WaveDriver:
         self.released = 0
         self.waves = []
         self.quiescent_states = 0
+        self.rounds = 0  # sampling rounds taken
+        self.parked_rounds = 0  # rounds in which every engine thread was parked
         self.stopping = False
         self.run_done = False
         self.thread = None
@@ -127,6 +129,9 @@ class WaveDriver:
                 time.sleep(self.period)
                 continue
             vec = self.sample()
+            self.rounds += 1
+            if vec is not None:
+                self.parked_rounds += 1
             if vec is not None and vec == prev:
                 # re-check the handshake: nothing was released meanwhile (only we release) -> stable
                 return True
